@@ -16,14 +16,26 @@ Cfgs == << [dtype |-> "uint8", float |-> FALSE, src_nodata |-> <<>>, dst_nodata 
            [dtype |-> "int16", float |-> FALSE, src_nodata |-> <<-5>>, dst_nodata |-> <<77>>, time |-> 0, tchunks |-> <<>>],
            [dtype |-> "uint8", float |-> FALSE, src_nodata |-> <<250>>, dst_nodata |-> <<200>>, time |-> 3, tchunks |-> <<2, 1>>],
            [dtype |-> "float32", float |-> TRUE, src_nodata |-> <<-7>>, dst_nodata |-> <<-9>>, time |-> 0, tchunks |-> <<>>],
-           [dtype |-> "int16", float |-> FALSE, src_nodata |-> <<>>, dst_nodata |-> <<>>, time |-> 3, tchunks |-> <<1, 2>>] >>
+           [dtype |-> "int16", float |-> FALSE, src_nodata |-> <<>>, dst_nodata |-> <<>>, time |-> 3, tchunks |-> <<1, 2>>],
+           \* mask: part of the SOURCE holds the source nodata value ("top" = upper half of every plane, "all", "t1" = the whole first time step);
+           \* floating point data with an explicit destination nodata of zero
+           [dtype |-> "int16", float |-> FALSE, src_nodata |-> <<-5>>, dst_nodata |-> <<>>, time |-> 0, tchunks |-> <<>>, mask |-> "top"],
+           [dtype |-> "uint8", float |-> FALSE, src_nodata |-> <<250>>, dst_nodata |-> <<200>>, time |-> 0, tchunks |-> <<>>, mask |-> "top"],
+           [dtype |-> "int16", float |-> FALSE, src_nodata |-> <<-5>>, dst_nodata |-> <<>>, time |-> 2, tchunks |-> <<1, 1>>, mask |-> "t1"],
+           [dtype |-> "uint8", float |-> FALSE, src_nodata |-> <<250>>, dst_nodata |-> <<>>, time |-> 0, tchunks |-> <<>>, mask |-> "all"],
+           [dtype |-> "float32", float |-> TRUE, src_nodata |-> <<>>, dst_nodata |-> <<0>>, time |-> 0, tchunks |-> <<>>],
+           [dtype |-> "float64", float |-> TRUE, src_nodata |-> <<-7>>, dst_nodata |-> <<0>>, time |-> 0, tchunks |-> <<>>, mask |-> "top"] >>
 MkC(t, A, crs, k) == [hs |-> SumTo(t.sy, Len(t.sy)), ws |-> SumTo(t.sx, Len(t.sx)), hd |-> SumTo(t.dy, Len(t.dy)), wd |-> SumTo(t.dx, Len(t.dx)),
                       A |-> A, sy |-> t.sy, sx |-> t.sx, dy |-> t.dy, dx |-> t.dx, crs |-> crs, cfg |-> Cfgs[(k % Len(Cfgs)) + 1], pad |-> <<>>, align |-> <<>>]
 Cases(sx) == {MkC(t, <<sx, 0, tx, 0, sy, ty>>, crs, Abs(tx) \div 60 + Abs(ty) \div 60 + Len(t.sy)) : tx \in CShifts, sy \in {Abs(sx), -Abs(sx)}, ty \in {60, 2940, -1980, 7000}, t \in CTilings, crs \in {"same", "other"}}
              \cup {MkC(t, <<0, -sx, tx, sx, 0, ty>>, "same", tx \div 60 + Len(t.sx)) : tx \in {60, 4860, 9000}, ty \in {60, -3000, 7000}, t \in CTilings}
+\* chunked reprojection between really different CRSs (curved tile footprints): placement in tenths of the footprint's span
+RealCases == {[op |-> "real", pair |-> pr, dx |-> dx, dy |-> dy, sch |-> sch, dch |-> dch, zoom |-> z] :
+                pr \in {"3575>4326", "32633>4326", "4326>3035", "3577>4326"}, dx \in {-3, 0, 4}, dy \in {-6, 0, 5},
+                sch \in {<<20, 20>>, <<60, 15>>}, dch \in {<<16, 16>>, <<48, 12>>, <<12, 48>>}, z \in {"same", "coarser"}}
 VARIABLE c
-Init == c \in {[k |-> s] : s \in CScales}
-Next == "k" \in DOMAIN c /\ c' \in {x \in Cases(c.k) : NoTies(x)} /\ Emit(c')
+Init == c \in {[k |-> 0]} \cup {[k |-> s] : s \in CScales}
+Next == "k" \in DOMAIN c /\ c' \in (IF c.k = 0 THEN RealCases ELSE {x \in Cases(c.k) : NoTies(x)}) /\ Emit(c')
 Spec == Init /\ [][Next]_c
 \* design level: with the transcribed linear dependency path, and with ANY superset of the exact need, chunked = whole
 AsE(x) == [c |-> x, sy |-> x.sy, sx |-> x.sx, dy |-> x.dy, dx |-> x.dx]
